@@ -23,6 +23,17 @@ def _rand_entry(rng, t, big):
     if t["kind"] == "I":
         bs = [x for e in t["entries"] for x in e[:2]] or [0]
         u = rng.random()
+        gaps = [(x[1], y[0]) for x, y in zip(t["entries"], t["entries"][1:]) if x[1] < y[0]]
+        if gaps and len(t["entries"]) > 12 and u < 0.5:
+            # a long tier: fill a gap (or the part of it that touches one neighbour)
+            g = rng.choice(gaps)
+            s, e = g
+            if e - s > 1 and rng.random() < 0.5:
+                if rng.random() < 0.5:
+                    s += 1
+                else:
+                    e -= 1
+            return [s, e, rng.choice(["n", "m", "", "a"])]
         if u < 0.4:
             s = rng.choice(bs) + rng.choice([-1, 0, 0, 1])
             e = rng.choice(bs) + rng.choice([-1, 0, 0, 1])
@@ -56,7 +67,7 @@ def generate(tier, rng):
     for _ in range(n):
         sc = gen.pick_scale(rng, decimal_share=0.3)
         big = 40
-        t = gen.random_itier(rng, tmax=big, maxn=6) if rng.random() < 0.7 else gen.random_ptier(rng, tmax=big, maxn=6)
+        t = gen.random_itier(rng, tmax=big, maxn=6, long_p=0.02) if rng.random() < 0.7 else gen.random_ptier(rng, tmax=big, maxn=6, long_p=0.02)
         u = rng.random()
         if u < 0.25:
             if t["entries"] and rng.random() < 0.7:
